@@ -1,4 +1,4 @@
-HOOK_COMMITS = []
+HOOK_COMMITS = ["a1cfaae", "517d757"]
 
 META = {
     "C01": dict(
@@ -15,6 +15,16 @@ META = {
         technique="Lean 4 spec (recursive tree hash) vs implementation model + three-way differential correspondence",
         text="The frozen format is the Lean definition specHash; the correspondence runs the real HashBucket, an independent Go reference, the Lean spec and the Lean implementation model on the same filesets and requires identical wareIDs (SHA-384 + base58 also implemented in Lean for this).",
         note="Trusted: Lean kernel; archive codecs and compression are outside the model (differential only).",
+    ),
+    "C12": dict(
+        technique="Lean 4 theorems (filter = documented per-attribute rule; pack with filter = lossless pack of filtered fileset) + differential correspondence",
+        text="C12_pack_entry / C12_reject_iff / C12_only_named / C12_flatten / C12_pack / C12_cli_stack are proved for every filter setting and every entry (no enumeration). The Lean filter functions are compared with filters.Apply*Filter on all complete settings x an entry zoo, and end to end through unpackTar.",
+        note="Trusted: Lean kernel; the filt/unpack streams. The warm-cache clause (reject rules with an already shelved ware) is decided by the cache stream.",
+    ),
+    "C17": dict(
+        technique="Lean 4 theorems (exit-code table total/injective on rio categories, header conversion never panics) + differential correspondence with recover()",
+        text="The error/exit-code table and the category filter are modelled and proved total and injective on documented categories; the tar unpack model returns ok|err|panic and is compared with the real unpackTar on hostile streams; the oracle demands no panic and only rio-* categories.",
+        note="Trusted: Lean kernel; archive/tar decoding is input to the model (the harness decodes the mutated stream and hands the header list to the model).",
     ),
     "C18": dict(
         technique="Lean 4 theorems on a model of fs/path.go + exhaustive differential correspondence",
